@@ -987,6 +987,7 @@ class Interp:
     # ------------------------------------------------------------------ calls
     def call(self, st, f, args, kwargs, node=None):
         if isinstance(f, Builtin):
+            V.audit_kwargs(f.impl, f.name, kwargs)
             yield from f.impl(self, st, args, kwargs)
             return
         if isinstance(f, MethodRef):
